@@ -1,29 +1,26 @@
-// Command dbg is a scratch pad for triaging replays by hand.
+// Command dbg is a scratch pad for triaging replays by hand: it prints the
+// column indexes of a parquet file.
 package main
 
 import (
 	"bytes"
 	"fmt"
+	"os"
 
 	"github.com/parquet-go/parquet-go"
-
-	"pqsim/gen"
 )
 
 func main() {
-	sh := gen.ShapeFlat
-	d := sh.Make(0, 3, 0)
-	for i := 0; i < d.Len(); i++ {
-		fmt.Printf("%d: %q\n", i, d.Value(i).(gen.Flat).ZS)
+	data, err := os.ReadFile(os.Args[1])
+	if err != nil {
+		panic(err)
 	}
-	var buf bytes.Buffer
-	w := sh.NewWriter("generic", &buf)
-	w.Write(d, 0, 3)
-	w.Close()
-	f, _ := parquet.OpenFile(bytes.NewReader(buf.Bytes()), int64(buf.Len()))
-	out := make([]parquet.Row, 3)
-	f.RowGroups()[0].Rows().ReadRows(out)
-	for i, r := range out {
-		fmt.Printf("file row %d: %+v\n", i, r)
+	f, err := parquet.OpenFile(bytes.NewReader(data), int64(len(data)))
+	if err != nil {
+		panic(err)
+	}
+	cols := f.Schema().Columns()
+	for i, ci := range f.ColumnIndexes() {
+		fmt.Printf("%d %v order=%v nullpages=%v min=%x max=%x\n", i, cols[i%len(cols)], ci.BoundaryOrder, ci.NullPages, ci.MinValues, ci.MaxValues)
 	}
 }
